@@ -163,19 +163,17 @@ open SJ.GoSem SJ.Generated SJ.GoIter SJ.GoObject SJ.GoApi in
     trees on every run (a nil destination is a flag; allocation zeroes or copies the fields). Their meaning under
     `GoSem.exec` is the model's `Iter.object`, `Iter.array`, `Iter.root`, `stringBytes`, `stringCvt`, `appendFloat`,
     `View.nextElementBytes`: same view / iterator / bytes and nil, or an error; receiver and tape untouched. `lim, off <
-    2^63` says that lengths are Go `int`s. `Iter.Root` returns `TagToType[tag]` where the model applies `Iter.Type()`
-    (which also tests the bounds): they differ only when the root's payload cuts a two-word value in half
-    (`RootTypeOK`; witness `rootWitness_*` in `Proofs/GoApi`), never on a parsed or edited tape. -/
+    2^63` says that lengths are Go `int`s. `Iter.Root` returns `TagToType[tag]` of the tag `AdvanceInto` returned, in
+    the source and in the model alike (no bounds test, unlike `Iter.Type()`: an earlier model differed when the root's
+    payload cuts a two-word value in half; `rootWitness_*` in `Proofs/GoApi` replay that tape: both sides agree). -/
 theorem C12_api_follows_source (pj : PJ) (hb : BufOK pj) (i d0 : Iter) (dv v : View) (b : Bool) (bits : UInt64)
     (hl : i.lim ≤ pj.tape.size) (hlim : i.lim < 2^63) (hoff : i.off < 2^63) (hv : v.lim ≤ pj.tape.size)
     (fuel : Nat) (hf : apiFuel pj i v bits ≤ fuel) :
     -- Object, Array
     SimView pj.tape (viewStore i dv b) i (runFun goFuns goIter_Object fuel ⟨viewStore i dv b, pj.tape⟩) i.object ∧
     SimView pj.tape (viewStore i dv b) i (runFun goFuns goIter_Array fuel ⟨viewStore i dv b, pj.tape⟩) i.array ∧
-    -- Root: exactly, and against the model's `Type`
+    -- Root, the returned `Type` included
     SimRoot pj.tape (rootStore i d0 b) b i (runFun goFuns goIter_Root fuel ⟨rootStore i d0 b, pj.tape⟩) (i.root pj) ∧
-    (RootTypeOK pj i →
-      SimRootM pj.tape (rootStore i d0 b) b i (runFun goFuns goIter_Root fuel ⟨rootStore i d0 b, pj.tape⟩) (i.root pj)) ∧
     -- String (through stringAt), StringCvt
     SimBytes pj (fun e' => ∀ k, e'.get k = (envOf "i" i ++ bufEnv pj).get k)
       (runFun goFuns goIter_String fuel ⟨envOf "i" i ++ bufEnv pj, pj.tape⟩) (i.stringBytes pj) ∧
